@@ -6,6 +6,8 @@ import (
 	"math"
 	"math/rand"
 	"reflect"
+	"sort"
+	"sync"
 	"time"
 	"unsafe"
 
@@ -363,6 +365,9 @@ func (g *Gen) Fill(v reflect.Value, m Mode, depth int, path string) {
 		}
 	case reflect.Struct:
 		for i := 0; i < t.NumField(); i++ {
+			if IsHidden(t, i) {
+				continue // not content: a generated value is one nothing has been done with yet
+			}
 			g.Fill(v.Field(i), m, depth+1, t.String()+"."+t.Field(i).Name)
 		}
 	default:
@@ -370,14 +375,58 @@ func (g *Gen) Fill(v reflect.Value, m Mode, depth int, path string) {
 	}
 }
 
-// Clone returns a deep copy of the value ptr points to (as a new pointer).
-func Clone(ptr reflect.Value) reflect.Value {
-	out := reflect.New(ptr.Type().Elem())
-	cloneInto(out.Elem(), ptr.Elem())
+// SchemaUnexported lists the unexported struct members that the schema names (they are content, or documented as not
+// transmitted). Every other unexported member of non-zero size is HIDDEN: the protocol description does not know it
+// (a cache, a memo, a lock). Hidden members are no part of an abstract value, are left zero by Gen and Fresh, and are
+// recorded (HiddenMembers) when a walk meets them; Clone copies them like Go's assignment does.
+var SchemaUnexported = map[string]bool{"consensus.Work.n": true, "types.StateElement.shared": true}
+
+// IsHidden reports whether member i of struct type t is hidden (see SchemaUnexported).
+func IsHidden(t reflect.Type, i int) bool {
+	f := t.Field(i)
+	return !f.IsExported() && f.Type.Size() > 0 && !SchemaUnexported[t.String()+"."+f.Name]
+}
+
+var (
+	hiddenMu   sync.Mutex
+	hiddenSeen = map[string]bool{}
+)
+
+func noteHidden(t reflect.Type, i int) {
+	hiddenMu.Lock()
+	hiddenSeen[t.String()+"."+t.Field(i).Name+" "+t.Field(i).Type.String()] = true
+	hiddenMu.Unlock()
+}
+
+// HiddenMembers lists the hidden members met by Abstract / Leaves / MutateLeaf / Fresh so far ("type.member gotype"), sorted.
+func HiddenMembers() []string {
+	hiddenMu.Lock()
+	defer hiddenMu.Unlock()
+	var out []string
+	for k := range hiddenSeen {
+		out = append(out, k)
+	}
+	sort.Strings(out)
 	return out
 }
 
-func cloneInto(dst, src reflect.Value) {
+// Clone returns a deep copy of the content of the value ptr points to (as a new pointer); hidden members are copied as
+// Go's assignment copies them (the member itself, not what it refers to).
+func Clone(ptr reflect.Value) reflect.Value {
+	out := reflect.New(ptr.Type().Elem())
+	cloneInto(out.Elem(), ptr.Elem(), false)
+	return out
+}
+
+// Fresh returns a deep copy of the CONTENT of the value ptr points to (as a new pointer): every hidden member is zero,
+// as in a value that was just built or decoded and that nothing has been computed from yet.
+func Fresh(ptr reflect.Value) reflect.Value {
+	out := reflect.New(ptr.Type().Elem())
+	cloneInto(out.Elem(), ptr.Elem(), true)
+	return out
+}
+
+func cloneInto(dst, src reflect.Value, fresh bool) {
 	dst = Settable(dst)
 	switch src.Kind() {
 	case reflect.Slice:
@@ -387,12 +436,12 @@ func cloneInto(dst, src reflect.Value) {
 		}
 		s := reflect.MakeSlice(src.Type(), src.Len(), src.Len())
 		for i := 0; i < src.Len(); i++ {
-			cloneInto(s.Index(i), src.Index(i))
+			cloneInto(s.Index(i), src.Index(i), fresh)
 		}
 		dst.Set(s)
 	case reflect.Array:
 		for i := 0; i < src.Len(); i++ {
-			cloneInto(dst.Index(i), src.Index(i))
+			cloneInto(dst.Index(i), src.Index(i), fresh)
 		}
 	case reflect.Ptr:
 		if src.IsNil() {
@@ -404,7 +453,7 @@ func cloneInto(dst, src reflect.Value) {
 			return
 		}
 		p := reflect.New(src.Type().Elem())
-		cloneInto(p.Elem(), src.Elem())
+		cloneInto(p.Elem(), src.Elem(), fresh)
 		dst.Set(p)
 	case reflect.Interface:
 		if src.IsNil() {
@@ -412,8 +461,13 @@ func cloneInto(dst, src reflect.Value) {
 			return
 		}
 		e := src.Elem()
+		if e.Kind() == reflect.Struct && !e.CanAddr() && e.CanInterface() {
+			tmp := reflect.New(e.Type()).Elem() // a struct held by value: make its members addressable
+			tmp.Set(e)
+			e = tmp
+		}
 		p := reflect.New(e.Type())
-		cloneInto(p.Elem(), e)
+		cloneInto(p.Elem(), e, fresh)
 		dst.Set(p.Elem())
 	case reflect.Struct:
 		if src.Type().ConvertibleTo(timeType) && src.NumField() == timeType.NumField() {
@@ -421,7 +475,16 @@ func cloneInto(dst, src reflect.Value) {
 			return
 		}
 		for i := 0; i < src.NumField(); i++ {
-			cloneInto(dst.Field(i), src.Field(i))
+			if IsHidden(src.Type(), i) {
+				noteHidden(src.Type(), i)
+				if !fresh && src.Field(i).CanAddr() {
+					// as Go's assignment does: the member itself is copied, what it points to is shared (never walked:
+					// it is no content, and it may point anywhere)
+					Settable(dst.Field(i)).Set(readable(src.Field(i)))
+				}
+				continue
+			}
+			cloneInto(dst.Field(i), src.Field(i), fresh)
 		}
 	default:
 		dst.Set(readable(src))
